@@ -614,10 +614,20 @@ class Attribute(_StringMixin):
         attributes = self._attributes
         current = self.namespace, self.local_name
         assert attributes is not None
+        new_key = attributes._etree_key((namespace, name))
+        if new_key == attributes._etree_key(current):
+            # another spelling of the same name
+            return
+        replaced = attributes._attributes.get(new_key)
+        if replaced is not None:
+            # an attribute with the new name is superseded
+            replaced._detached_value = replaced.value
+            replaced._attributes = None
         attributes[(namespace, name)] = self.value
         self._qualified_name = (namespace, name)
         del attributes[current]
         self._attributes = attributes
+        attributes._attributes[new_key] = self
 
     @property
     def local_name(self) -> str:
@@ -694,7 +704,8 @@ class TagAttributes(MutableMapping):
     __slots__ = ("_attributes", "_etree_attrib", "_node")
 
     def __init__(self, node: TagNode):
-        self._attributes: dict[QualifiedName, Attribute] = {}
+        # the objects are kept per key of the wrapped attributes mapping
+        self._attributes: dict[str, Attribute] = {}
         self._etree_attrib: etree._Attrib = node._etree_obj.attrib
         self._node = node
 
@@ -709,8 +720,9 @@ class TagAttributes(MutableMapping):
         attribute = self[qualified_name]
         assert attribute is not None
         attribute._detached_value = attribute.value
-        del self._etree_attrib[self._etree_key(qualified_name)]
-        del self._attributes[qualified_name]
+        key = self._etree_key(qualified_name)
+        del self._etree_attrib[key]
+        del self._attributes[key]
         attribute._attributes = None
 
     def __eq__(self, other: Any) -> bool:
@@ -747,10 +759,11 @@ class TagAttributes(MutableMapping):
     def __getitem__(self, item: AttributeAccessor) -> Attribute:
         if item in self:
             qualified_name = self.__resolve_accessor(item)
-            result = self._attributes.get(qualified_name)
+            key = self._etree_key(qualified_name)
+            result = self._attributes.get(key)
             if result is None:
-                result = Attribute(self, qualified_name)
-                self._attributes[qualified_name] = result
+                result = Attribute(self, self.__reported_name(qualified_name))
+                self._attributes[key] = result
             return result
         else:
             raise KeyError(item)
@@ -775,12 +788,20 @@ class TagAttributes(MutableMapping):
         if isinstance(value, Attribute):
             value = value.value
         self._etree_attrib[key] = value
-        self._attributes[qualified_name] = Attribute(self, qualified_name)
+        if key not in self._attributes:
+            self._attributes[key] = Attribute(
+                self, self.__reported_name(qualified_name)
+            )
 
     def __str__(self):
         return str(self.as_dict_with_strings())
 
     __repr__ = __str__
+
+    def __reported_name(self, qualified_name: QualifiedName) -> QualifiedName:
+        # the name as it is yielded when iterating
+        namespace, name = qualified_name
+        return namespace or self._node._etree_obj.nsmap.get(None, ""), name
 
     def __resolve_accessor(self, item: AttributeAccessor) -> QualifiedName:
         if isinstance(item, str):
